@@ -18,7 +18,7 @@ func expectMove(r *Rec, g0 *d2graph.Graph, pre *PBoard) (alts []*expectation, ki
 		return nil, ""
 	}
 	if r.Op.K == "rename" {
-		x := newExpectation(pre)
+		x := newExpectation(r, pre)
 		x.by[abs].free = true
 		return []*expectation{x}, "rename"
 	}
@@ -34,7 +34,7 @@ func expectMove(r *Rec, g0 *d2graph.Graph, pre *PBoard) (alts []*expectation, ki
 		}
 	}
 	build := func(hoist bool) *expectation {
-		x := newExpectation(pre)
+		x := newExpectation(r, pre)
 		X := x.by[abs]
 		var D *xObj
 		if destAbs != "" {
@@ -47,7 +47,7 @@ func expectMove(r *Rec, g0 *d2graph.Graph, pre *PBoard) (alts []*expectation, ki
 		X.free = true
 		return x
 	}
-	x0 := newExpectation(pre)
+	x0 := newExpectation(r, pre)
 	X0 := x0.by[abs]
 	var D0 *xObj
 	if destAbs != "" {
